@@ -260,6 +260,10 @@ impl<S: Read + Write> Client<S> {
     pub fn shutdown(&mut self) -> RdpResult<()> {
         self.transport.shutdown()
     }
+
+    pub fn has_pending_data(&self) -> bool {
+        self.transport.has_pending_data()
+    }
 }
 
 /// Verification hook (only with `--cfg rdp_rs_verif`): build the layer
